@@ -7,3 +7,7 @@ timeout 5400 make -j16
 cd /verif/harness
 [ -f Cargo.lock ] || cp /repo/Cargo.lock Cargo.lock
 CARGO_NET_OFFLINE=true cargo build --release --offline
+# optional pre-builds (each check rebuilds what it needs from /repo's current tree anyway)
+cd /verif/gpu/standin && ./build.sh || true
+cd /verif/harness-gpu && { [ -f Cargo.lock ] || cp /repo/Cargo.lock Cargo.lock; CARGO_TARGET_DIR=/verif/harness/target-gpu RUSTFLAGS="-L /verif/gpu/standin" CARGO_NET_OFFLINE=true cargo build --release --offline || true; }
+cd /verif/harness-surfaces && { [ -f Cargo.lock ] || cp /repo/Cargo.lock Cargo.lock; CARGO_TARGET_DIR=/verif/harness/target CARGO_NET_OFFLINE=true cargo build --release --offline || true; }
